@@ -342,15 +342,17 @@ func (res *Response) ReadFrom(r io.Reader) (n int64, err error) {
 	}
 
 	if !res.Parser.Engine.DisableSendfile {
-		lr, ok := r.(*io.LimitedReader)
-		if ok {
-			n, r = lr.N, lr.R
-			if n <= 0 {
+		// The limit of an io.LimitedReader only comes off for Sendfile, which
+		// gets it as its argument; a plain file is sent to its end.
+		src, remain := r, int64(0)
+		if lr, ok := r.(*io.LimitedReader); ok {
+			if lr.N <= 0 {
 				return 0, nil
 			}
+			src, remain = lr.R, lr.N
 		}
 
-		f, ok := r.(*os.File)
+		f, ok := src.(*os.File)
 		if ok {
 			rc := c
 			if hc, ok := c.(*Conn); ok {
@@ -369,7 +371,7 @@ func (res *Response) ReadFrom(r io.Reader) (n int64, err error) {
 
 			}
 			if ok {
-				ns, err := nc.Sendfile(f, lr.N)
+				ns, err := nc.Sendfile(f, remain)
 				return ns, err
 			}
 		}
